@@ -110,8 +110,16 @@ def check(run: Run) -> None:
         if not req or not any("OperatorRequirementsError" in cn(x.e) for x in req[0].then.walk() if isinstance(x, C.Throw)) or \
                 not any("OperatorResolutionError" in k for k in kinds):
             run.finding("C19.b", "resolve:error-kinds", f"no-match must raise OperatorRequirementsError iff any_requires_rejected else OperatorResolutionError: {kinds}", loc=DISP)
-        srt = [c for c in R.calls(fa) if R.callee_name(c) in ("stable_sort", "sort")]
-        run.sites(len(srt), 1, "survivor sort")
+        ordering = [c for c in R.calls(fa) if R.callee_name(c) in ("stable_sort", "sort", "partial_sort", "nth_element", "min_element", "partial_sort_copy")
+                    and c.args and cn(c.args[0]).startswith("survivors")]
+        srt = [c for c in ordering if R.callee_name(c) in ("stable_sort", "sort")]
+        run.count(1, "C19.b.sorted")
+        if not srt:
+            what = ", ".join(f"{R.callee_name(c)}({', '.join(cn(a) for a in c.args[:-1])})" for c in ordering) or "nothing"
+            run.finding("C19.b", "resolve:survivors-not-fully-ordered", "the tie test compares survivors[0] with survivors[1], so BOTH must be minima: the "
+                        f"survivors must be fully ordered by rank, found {what}; with three or more survivors a tie at the best rank is missed and the "
+                        "winner depends on registration order", loc=fa.loc(ordering[0]) if ordering else DISP)
+            return
         lam = srt[0].args[2] if len(srt[0].args) == 3 and isinstance(srt[0].args[2], C.Lambda) else None
         cmp_ = cn(R.find(lam.body, lambda n: isinstance(n, C.Return))[0].e) if lam is not None else None
         names = [p[1] for p in lam.params] if lam is not None else []
@@ -235,6 +243,33 @@ def check(run: Run) -> None:
         if not kw or cn(kw[-1].range) not in ("survivors[0].call.kwargs", "winner.call.kwargs"):
             run.finding("C19.f", "resolve:kwargs", "keyword arguments must be materialised from the winner's call", loc=DISP)
 
+    with run.obligation("C19.g", "K6", "try_match: every pattern match of a candidate runs against that candidate's binding map (or a copy of it), so a "
+                        "type variable bound by one parameter or by the requested output constrains every other parameter, the variadic tail included"):
+        fa = R.fn(run, DISP, "try_match")
+        cn = R.aliases_of(fa)
+        MATCHERS = ("input_ts_pattern_match", "output_ts_pattern_match", "scalar_value_matches_ts_pattern", "scalar_pattern_match")
+        scopes = {"map": "the candidate's map"}
+        for dcl in R.find(fa, lambda n: isinstance(n, C.Decl) and "ResolutionMap" in n.type):
+            for d in dcl.decls:
+                init = cn(d.init) if d.init is not None else "<empty>"
+                run.count(1, "C19.g.scope")
+                if init == "map":
+                    scopes[d.name] = "copy of map"
+                else:
+                    run.finding("C19.g", f"try_match:scope:{d.name}", f"the matching scope `{d.name}` starts from {init}, not from the candidate's bindings: "
+                                "arguments matched in it are not tied to the variables already bound", loc=fa.loc(d))
+        n = 0
+        for c in R.calls(fa):
+            if R.callee_name(c) not in MATCHERS:
+                continue
+            n += 1
+            run.count(1, "C19.g.match")
+            last = cn(c.args[-1])
+            if last not in scopes:
+                run.finding("C19.g", f"try_match:match-scope:{R.callee_name(c)}:{last}", f"{R.callee_name(c)} binds into `{last}`, which is not the candidate's "
+                            "binding map or a copy of it", loc=fa.loc(c))
+        run.sites(n, 7, "pattern matches in try_match")
+
 
 def _enum(run, rel, struct):
     fi = run.tree.file(rel)
@@ -245,6 +280,8 @@ def _enum(run, rel, struct):
 
 
 VARIANTS = [
+    {"id": "b-partial-sort-head-only", "expect": "C19.b", "edits": [{"file": DISP, "find": "        std::stable_sort(survivors.begin(), survivors.end(),\n                         [](const Survivor &a, const Survivor &b) { return a.rank < b.rank; });", "replace": "        std::partial_sort(survivors.begin(), survivors.begin() + 1, survivors.end(),\n                          [](const Survivor &a, const Survivor &b) { return a.rank < b.rank; });"}]},
+    {"id": "g-tail-scope-empty", "expect": "C19.g", "edits": [{"file": DISP, "find": "                    ResolutionMap tail_scope = map;", "replace": "                    ResolutionMap tail_scope;"}]},
     {"id": "a-first-match-wins", "expect": "C19.a", "edits": [{"file": DISP, "find": "                survivors.push_back({&impl, std::move(map), std::move(call), impl.rank + rank_adjustment});\n", "replace": "                survivors.push_back({&impl, std::move(map), std::move(call), impl.rank + rank_adjustment});\n                if (impl.rank == 0) { break; }\n"}]},
     {"id": "a-shared-map", "expect": "C19.a", "edits": [{"file": DISP, "find": "        for (const OperatorImpl &impl : it->second)\n        {\n            NormalizedCall call;", "replace": "        ResolutionMap map = initial_resolution != nullptr ? *initial_resolution : ResolutionMap{};\n        for (const OperatorImpl &impl : it->second)\n        {\n            NormalizedCall call;"}, {"file": DISP, "find": "            ResolutionMap map = initial_resolution != nullptr\n                                    ? *initial_resolution\n                                    : ResolutionMap{};\n", "replace": ""}]},
     {"id": "a-rank-ignores-defaults", "expect": "C19.a", "edits": [{"file": DISP, "find": "survivors.push_back({&impl, std::move(map), std::move(call), impl.rank + rank_adjustment});", "replace": "survivors.push_back({&impl, std::move(map), std::move(call), impl.rank});"}]},
